@@ -269,8 +269,8 @@ def b_map(V, st, args, kwargs, node):
         t = type_of(elt)
         r = fresh(SeqT(t), 'map')
         n = z3.Length(seq.z)
-        st.assume(z3.Length(r.z) == n)
-        st.assume(z3.ForAll([i], z3.Implies(z3.And(i >= 0, i < n), r.z[i] == pack(elt, t))))
+        st.fact(z3.Length(r.z) == n)
+        st.fact(z3.ForAll([i], z3.Implies(z3.And(i >= 0, i < n), r.z[i] == pack(elt, t))))
         return r
     raise Unsupported('map over %r' % (seq,))
 
@@ -327,7 +327,7 @@ def b_set(V, st, args, kwargs, node):
         # set(seq): a fresh set constant characterised by membership (no lambda: portable across solvers)
         r = fresh(SetT(v.t.elem), 'setof')
         x = z3.Const(fresh_name('e'), sort_of(v.t.elem))
-        st.assume(z3.ForAll([x], z3.Select(r.z, x) == z3.Contains(v.z, z3.Unit(x))))
+        st.fact(z3.ForAll([x], z3.Select(r.z, x) == z3.Contains(v.z, z3.Unit(x))))
         return r
     raise Unsupported('set() of %r' % (v,))
 
